@@ -179,6 +179,64 @@ def check(ctx):
                   "Ok(%s) is reachable without the `> INVALID_PROD` test (default production)" % body.local_name(src),
                   "%s:%d" % (body.file, line))
     ctx.require_floor("R08.3", "ok_sites", len(ok_sites), 2)
+    scan_complete(ctx, body, "R08.4")
+
+
+def scan_complete(ctx, body, rule):
+    """R08.4: the search for a transition examines the whole transition table for every look-ahead token.
+    The compiled automaton is sorted by (from_state, terminal) but minimisation merges states, so transitions may
+    lead to *lower* numbered states; a scan that resumes behind the last taken transition misses them."""
+    from ..dataflow import single_def
+    from .common import recv_fields
+    idx_blocks = set()
+    for bi, si, p, rv, line, mac in body.assigns():
+        pl = rv[-1] if rv[0] in ("ref", "cfd") else (rv[1][1] if rv[0] == "use" and rv[1][0] in ("c", "m") else None)
+        if pl is None:
+            continue
+        rp = raw_place(body, pl)
+        names = [e[2] for e in rp[1:] if isinstance(e, list) and e[0] == "f"]
+        if "transitions" in names and any(isinstance(e, list) and e[0] == "i" for e in rp[1:]):
+            idx_blocks.add(bi)
+    if not idx_blocks:
+        # iterator style: transitions.iter()
+        its = [c for c in body.calls() if (c.path or "").endswith("slice::iter") and "Trans" in (c.self_ty or "")]
+        ctx.check(bool(its), rule, "eval|scan-complete", "the transition table is traversed with slice::iter()",
+                  "cannot find how eval traverses the transition table", "%s:%d" % (body.file, body.lo))
+        return
+    loops = [l for l in cfg.natural_loops(body) if idx_blocks & l[1]]
+    loops.sort(key=lambda l: len(l[1]))
+    inner = loops[0]
+    nexts = [c for c in body.calls() if "std::iter::Iterator::next" in c.names() and c.bb in inner[1]
+             and "Range<usize>" in (c.self_ty or "")]
+    ok = False
+    why = "no Range iteration found"
+    line = body.lo
+    if nexts:
+        # the iterator local <- into_iter(Range{start,end})
+        rp = raw_operand_place(body, nexts[0].args[0])
+        d = single_def(body, rp[0]) if rp else None
+        hops = 0
+        while d and hops < 4:
+            hops += 1
+            if d[0] == "call" and "std::iter::IntoIterator::into_iter" in d[3].names():
+                rp = raw_operand_place(body, d[3].args[0])
+                d = single_def(body, rp[0]) if rp else None
+                continue
+            break
+        if d and d[0] == "assign" and d[3][0] == "agg" and d[3][2] == "std::ops::Range":
+            start, end = d[3][4][0], d[3][4][1]
+            line = body.stmts(d[1])[d[2]][3]
+            st = operand_term(body, start)
+            en = operand_term(body, end)
+            s_ok = st[0] == "const" and st[2] == 0
+            e_ok = en[0] == "call" and (en[1].path or "").endswith("::len") and "transitions" in recv_fields(body, en[1])
+            ok = s_ok and e_ok
+            why = "range is %s..%s" % (term_str(body, st), term_str(body, en))
+    ctx.check(ok, rule, "eval|scan-complete",
+              "for every look-ahead token the scan covers 0..transitions.len()",
+              "the transition scan of LookaheadDFA::eval does not cover the whole table for every look-ahead token (%s): "
+              "minimised automata contain transitions to lower numbered states, their target's transitions would be "
+              "missed and a valid look-ahead string is rejected" % why, "%s:%d" % (body.file, line))
 
 
 def _reach_avoiding(body, start, goal, avoid):
